@@ -396,7 +396,7 @@ def ext_python(text):
         # `\w+`, not an identifier pattern: Python's snake-casing can produce attribute names such as `9_lives` (from
         # `_9lives`), which is not valid Python - a well-formedness matter (C10); the key binding is still the alias
         # (a combining mark U+0300..U+036F is part of an identifier, but not of python's `\w`)
-        m = re.match(r"^    ((?:\w|[\u0300-\u036f])+): (.*)$", line)
+        m = re.match(r"^    ([^\s:]+): (.*)$", line)       # (not `\w+`: a name may carry combining marks of any block, which `\w` does not match)
         if m:
             am = re.search(r' = Field\(alias="(.*?)"(?:, default=[^()]*)?\)$', m.group(2))
             out[cur].append(am.group(1) if am else m.group(1))
